@@ -390,6 +390,9 @@ pub fn run(cli: Cli) -> ! {
         /// consecutive discovery replies on the same adapter instance (each judged on its own)
         DiscHistory(Vec<Vec<WireTarget>>),
         Sel(usize, Reply, usize, usize, usize, i32),
+        /// consecutive select() calls on the same adapter instance whose candidate lists differ in one respect
+        /// only (each call judged on its own: what the service sees is what this call was given)
+        SelHistory(Vec<(Vec<Target>, Reply)>),
     }
     let mut jobs: Vec<Job> = vec![];
     for s in &singles {
@@ -414,6 +417,24 @@ pub fn run(cli: Cli) -> ! {
         for (ri, r) in replies.iter().enumerate() {
             let k = ci + ri;
             jobs.push(Job::Sel(ci, r.clone(), k % clients.len(), k % servers.len(), k % users.len(), [769, 0, i32::MAX][k % 3]));
+        }
+    }
+    // histories of select() calls: the next call's candidates differ from the previous call's only in metadata
+    // values, in the set of metadata keys, in one address, in one identifier, in order, in length - or not at all
+    {
+        let m = |pairs: &[(&str, &str)]| -> Vec<(String, String)> { pairs.iter().map(|(k, v)| (k.to_string(), v.to_string())).collect() };
+        let base = vec![mk("lobby-1", "10.0.0.1:25565", &m(&[("players", "3"), ("state", "Ready")])), mk("lobby-2", "[2001:db8::2]:25566", &m(&[("players", "7"), ("state", "Ready")]))];
+        let other_values = vec![mk("lobby-1", "10.0.0.1:25565", &m(&[("players", "41"), ("state", "Ready")])), mk("lobby-2", "[2001:db8::2]:25566", &m(&[("players", "2"), ("state", "Allocated")]))];
+        let fewer_keys = vec![mk("lobby-1", "10.0.0.1:25565", &m(&[("state", "Ready")])), mk("lobby-2", "[2001:db8::2]:25566", &m(&[]))];
+        let more_keys = vec![mk("lobby-1", "10.0.0.1:25565", &m(&[("players", "3"), ("state", "Ready"), ("region", "eu")])), mk("lobby-2", "[2001:db8::2]:25566", &m(&[("players", "7"), ("state", "Ready")]))];
+        let moved = vec![mk("lobby-1", "10.0.0.9:25565", &m(&[("players", "3"), ("state", "Ready")])), mk("lobby-2", "[2001:db8::2]:25567", &m(&[("players", "7"), ("state", "Ready")]))];
+        let renamed = vec![mk("lobby-1b", "10.0.0.1:25565", &m(&[("players", "3"), ("state", "Ready")])), mk("lobby-2", "[2001:db8::2]:25566", &m(&[("players", "7"), ("state", "Ready")]))];
+        let swapped: Vec<Target> = base.iter().rev().cloned().collect();
+        let shorter = vec![base[1].clone()];
+        for variant in [&other_values, &fewer_keys, &more_keys, &moved, &renamed, &swapped, &shorter, &base] {
+            for pick in [0usize, 1] {
+                jobs.push(Job::SelHistory(vec![(base.clone(), Reply::Echo(pick)), (variant.clone(), Reply::Echo(pick)), (base.clone(), Reply::Echo(1 - pick)), (variant.clone(), Reply::None)]));
+            }
         }
     }
     // foreign replies: every host x port shape as the service's answer
@@ -461,6 +482,13 @@ pub fn run(cli: Cli) -> ! {
                             }
                         }
                         Job::Sel(ci, r, c, s, u, p) => check_select(cxr, &peer, &cand_lists[*ci], r.clone(), clients[*c], servers[*s], users[*u], *p).await,
+                        Job::SelHistory(steps) => {
+                            // a fresh adapter instance per history (the shared one has seen other candidates)
+                            let own = start_peer().await;
+                            for (cands, reply) in steps {
+                                check_select(cxr, &own, cands, reply.clone(), clients[0], servers[0], users[0], 769).await;
+                            }
+                        }
                     }
                 });
                 r.await;
@@ -476,7 +504,7 @@ pub fn run(cli: Cli) -> ! {
     cx.rep.set("targets_crossed", json!(cx.ok_targets.load(Ordering::Relaxed)));
     cx.rep.set("rejected", json!(cx.rejected.load(Ordering::Relaxed)));
     cx.rep.set("exhaustive", json!(true));
-    cx.rep.set("rule", json!("RPCs against an in-process tonic server generated from the repository's .proto files: discovery replies over host text(20, incl. absent) x port(6) [x identifier(4) x metadata(6) in thorough], identifier x metadata on good IPv4/IPv6 addresses, lists of 0-3, 11 histories of 3-7 consecutive replies on one adapter instance (a malformed reply repeated, between and after well-formed ones); select() over candidate lists (8 address shapes x metadata, ordered pairs) x reply (none, echo of the i-th candidate as received, out-of-range index, every host x port shape as a foreign reply) x client address, server address, player. Every job is distinct."));
+    cx.rep.set("rule", json!("RPCs against an in-process tonic server generated from the repository's .proto files: discovery replies over host text(20, incl. absent) x port(6) [x identifier(4) x metadata(6) in thorough], identifier x metadata on good IPv4/IPv6 addresses, lists of 0-3, 11 histories of 3-7 consecutive replies on one adapter instance (a malformed reply repeated, between and after well-formed ones); select() over candidate lists (8 address shapes x metadata, ordered pairs) x reply (none, echo of the i-th candidate as received, out-of-range index, every host x port shape as a foreign reply) x client address, server address, player; 16 histories of 4 select() calls on one adapter instance whose candidate lists differ only in metadata values, metadata keys, one address, one identifier, order or length. Every job is distinct."));
     cx.rep.sample(json!({"direction": "discovery-reply", "target": {"id": "a", "host": "2001:db8::1", "port": 25565, "meta": [["a", "b"]]}, "expect": "Target with address [2001:db8::1]:25565"}));
     cx.rep.sample(json!({"direction": "discovery-reply", "target": {"id": "a", "host": "10.1.2.3", "port": 65536}, "expect": "error"}));
     cx.rep.sample(json!({"direction": "select", "candidates": ["10.1.2.3:25565", "[2001:db8::1]:25565"], "reply": "Echo(1)", "expect": "the second candidate, unchanged"}));
